@@ -242,7 +242,17 @@ class _HamiltonianSystem(_DynamicalSystem):
             Compiled function implementing Hamilton's equations.
         """
 
-        jac_H, clmo_H, n_dof = self.jac_H, self.clmo_H, self.n_dof
+        # Numba cannot lower typed lists captured as free variables of a jitted
+        # closure; immutable tuples of arrays are frozen as constants instead.
+        # The Jacobian only reaches degree ``degree - 1``, so only that many
+        # index tables are captured.
+        jac_H = tuple(
+            tuple(np.ascontiguousarray(coeffs) for coeffs in var_derivs)
+            for var_derivs in self.jac_H
+        )
+        n_tables = max(len(var_derivs) for var_derivs in jac_H)
+        clmo_H = tuple(np.ascontiguousarray(c) for c in self.clmo_H)[:n_tables]
+        n_dof = self.n_dof
 
         def _rhs_impl(t: float, state: np.ndarray) -> np.ndarray:
             # Autonomous: t is unused; required for interface consistency
